@@ -151,7 +151,7 @@ def handler_src(prog, part, m, in_trait):
     err = "HandlerErr" if part["id"] == "own" else "ContractError"   # interfaces share the contract's error type
     rty = ("QResultB<" + err + ">") if aliased else ("Result<%s, " % ret + err + ">")
     return ("    fn %s(&self, ctx: %s%s) -> " + rty.replace("%", "%%") + " {\n"
-            "        rec::handler(\"%s\", \"%s\", \"%s\", \"%s\", vec![%s], rec::%s(&ctx));\n"
+            "        rec::handler_on(self.tag, \"%s\", \"%s\", \"%s\", \"%s\", vec![%s], rec::%s(&ctx));\n"
             "%s        %s\n    }\n") % (m["name"], ctx_ty, params, prog["id"], part["id"], m["name"], m["kind"], args, ctx_fn, mutc, fin)
 
 
@@ -211,7 +211,7 @@ def encode_src(prog):
                     doc = body_json(m, val)
                 args = ", ".join('("%s", rec::enc(&%s))' % (a["n"], rn(a)) for a in m["args"])
                 out.append("        { %slet msg = %s; rec::encode(\"%s\", \"%s\", \"%s\", \"%s\", %d, vec![%s], &msg, %s); }\n" % (
-                    lets, ctor, prog["id"], part["id"], m["kind"], m["name"], val, args, json.dumps(doc)))
+                    lets, ctor, prog["id"], part["id"], m["kind"], m["name"], val, args, json.dumps(doc, ensure_ascii=False)))
     return "".join(out)
 
 
@@ -362,7 +362,7 @@ def mt_src(prog):
         return "%s::%s(c%s)" % (tr, m["near"], (", " + a) if a else "")
 
     def doc(m, val):
-        return json.dumps(('{"%s":%s}' % (m["wire"], body_json(m, val))) if m["kind"] in ENUM_KINDS else body_json(m, val))
+        return json.dumps(('{"%s":%s}' % (m["wire"], body_json(m, val))) if m["kind"] in ENUM_KINDS else body_json(m, val), ensure_ascii=False)
 
     o = ["    fn mt_histories(hists: &serde_json::Value) {\n"
          "        use sylvia::cw_multi_test::Executor;\n        use sylvia::cw_std::{Addr, Binary, WasmMsg};\n"
@@ -525,7 +525,8 @@ def program_src(prog):
     o.append(override_src(prog))
     gen_hdr = "<T>" if generic else ""
     gen_where = " where T: sylvia::types::CustomMsg + 'static" if generic else ""
-    o.append("    pub struct Ctr<T>(std::marker::PhantomData<T>);\n\n" if generic else "    pub struct Ctr;\n\n")
+    # the contract is a value: `new()` makes the one the entry points use (tag 0); the harness calls the multitest impl on another
+    o.append("    pub struct Ctr<T> { pub tag: u32, _p: std::marker::PhantomData<T> }\n\n" if generic else "    pub struct Ctr { pub tag: u32 }\n\n")
     for p in ifaces:
         tr = p["id"].capitalize()
         o.append("    impl%s %s::%s for Ctr%s%s {\n        type Error = ContractError;\n%s" % (
@@ -539,7 +540,7 @@ def program_src(prog):
     for k in prog.get("overrides", []):
         o.append("    #[sv::override_entry_point(%s=ov::%s(verif_rrt::OvMsg))]\n" % (k, k))
     o.append("    impl%s Ctr%s%s {\n        pub const fn new() -> Self {\n            %s\n        }\n" % (
-        gen_hdr, gen_hdr, gen_where, "Ctr(std::marker::PhantomData)" if generic else "Ctr"))
+        gen_hdr, gen_hdr, gen_where, "Ctr { tag: 0, _p: std::marker::PhantomData }" if generic else "Ctr { tag: 0 }"))
     for m in own["methods"]:
         o.append("        #[sv::msg(%s%s)]\n" % (m["kind"], (", resp=%s" % m["resp"]) if (m["kind"] == "query" and m.get("explicit")) else ""))
         o.append("    " + handler_src(prog, own, m, False).replace("\n    ", "\n        ").rstrip(" "))
@@ -586,7 +587,8 @@ def program_src(prog):
                  "                Ok(m) => { let (v, b) = %s; CallOut::Done(v, b) }\n            },\n" % (k, ty, call))
     o.append("            _ => CallOut::Absent,\n        }\n    }\n\n")
     o.append("    fn call_mt(kind: &str, deps: &mut Deps, env: Env, info: MessageInfo, doc: &[u8]) -> CallOut {\n"
-             "        type MtC = dyn sylvia::cw_multi_test::Contract<sylvia::cw_std::Empty, sylvia::cw_std::Empty>;\n        let c = %s::new();\n        match kind {\n" % ctr_ty)
+             "        type MtC = dyn sylvia::cw_multi_test::Contract<sylvia::cw_std::Empty, sylvia::cw_std::Empty>;\n        let c = %s;\n        match kind {\n" % (
+                 "Ctr::<GenVal> { tag: 9, _p: std::marker::PhantomData }" if generic else "Ctr { tag: 9 }"))
     for k in ("instantiate", "exec", "query", "sudo", "migrate"):
         if k == "query":
             call = "outcome_bin(MtC::query(&c, deps.as_ref(), env, doc.to_vec()).map_err(|e| proj_anyhow(&e)))"
